@@ -81,13 +81,79 @@ def _code(w):
         return int(ErrorCodes[w])
 
 
+
+# ---- internals located BY ROLE, never by private name ------------------------------------------------
+def _ivars(obj):
+    try:
+        return dict(vars(obj))
+    except TypeError:
+        return {}
+
+
+def h2_of(conn):
+    """the h2.H2Connection a grpclib Connection drives (found by type)"""
+    from h2.connection import H2Connection
+    for v in _ivars(conn).values():
+        if isinstance(v, H2Connection):
+            return v
+    return None
+
+
+def buffer_parts(buf):
+    """(name of the credit callback, the queue of unread items, name of the end-of-stream flag) of a
+    protocol.Buffer; None for a part that cannot be told apart"""
+    d = _ivars(buf)
+    queues = [v for v in d.values() if isinstance(v, asyncio.Queue)]
+    cbs = [k for k, v in d.items() if callable(v) and not isinstance(v, asyncio.Queue)]
+    flags = [k for k, v in d.items() if type(v) is bool]
+    return (cbs[0] if len(cbs) == 1 else None,
+            queues[0] if len(queues) == 1 else None,
+            flags[0] if len(flags) == 1 else None)
+
+
+def queue_items(q):
+    """unread items of an asyncio.Queue without consuming them: [(data, credit)] or None"""
+    dq = getattr(q, '_queue', None)              # asyncio's own attribute, not grpclib's
+    if dq is None:
+        return None
+    out = []
+    for it in list(dq):
+        try:
+            out.append((getattr(it, 'data', it[0]), getattr(it, 'ack_size', it[-1])))
+        except Exception:
+            return None
+    return out
+
+
+def wrapper_error(w):
+    """(observable, error) -- the exception a utils.Wrapper was cancelled with: the one attribute holding
+    an exception instance"""
+    errs = [v for v in _ivars(w).values() if isinstance(v, BaseException)]
+    if len(errs) == 1:
+        return True, errs[0]
+    if not errs:
+        # never cancelled (no error stored), unless the public flag says otherwise
+        return (not getattr(w, 'cancelled', None)), None
+    return False, None
+
+
+def handler_task_table(handler, stream):
+    """the dict in which a server Handler keeps stream -> handler task (found by what it holds)"""
+    for k, v in _ivars(handler).items():
+        if isinstance(v, dict) and stream in v and isinstance(v.get(stream), asyncio.Task):
+            return k
+    return None
+
+
 class Recorder:
     def __init__(self, proto, side):
-        """attach right after proto.connection_made(...)"""
+        """attach right after proto.connection_made(...).  Never raises: what cannot be hooked or located
+        is listed in .unobs (fields masked on both sides of every comparison) or makes the recorder
+        .blind (no correspondence for this connection)."""
         self.proto = proto
         self.side = side                 # 'C' | 'S'
-        self.proc = proto.processor
-        self.conn = proto.connection
+        self.proc = getattr(proto, 'processor', None)
+        self.conn = getattr(proto, 'connection', None)
         self.tokens = []                 # tuples of words; ('|',) separates reads
         self.acks = []                   # model outputs: ('ack', sid, n)
         self.raised = 0
@@ -98,16 +164,27 @@ class Recorder:
         self.tasks = {}                  # server: stream -> handler task
         self.req = {}                    # server: stream -> request headers given to accept
         self.release_snaps = []          # (token index, sid, snapshot)
-        self._install()
+        self.unobs = set()               # 'queue' 'eof' 'err' 'in_tasks' 'cancels' 'acks' 'req' 'flags' 'closed'
+        self.blind = False
+        self.task_table = None           # name of the Handler's stream -> task dict, once seen
+        try:
+            self._install()
+        except Exception as e:            # a re-structured grpclib: observe nothing rather than crash
+            self.blind = True
+            self.blind_reason = '%s: %s' % (type(e).__name__, e)
 
     # ---- instrumentation (instance attributes only) ----------------------------------------------
     def _install(self):
         proc, conn, proto = self.proc, self.conn, self.proto
+        if proc is None or conn is None:
+            raise RuntimeError('protocol without processor/connection')
         orig_process, orig_close, orig_register = proc.process, proc.close, proc.register
         orig_dr, orig_pause, orig_resume = proto.data_received, proto.pause_writing, proto.resume_writing
         orig_ack = conn.ack
-        h2c = conn._connection
-        orig_reset = h2c.reset_stream
+        streams = proc.streams                        # noqa: must exist
+        h2c = h2_of(conn)
+        # the transport handed to connection_made (the harness's own object): "closed" is observed on it
+        self.transport = next((v for v in _ivars(conn).values() if isinstance(v, asyncio.BaseTransport)), None)
 
         def process(event):
             self.emit(event_words(event))
@@ -124,7 +201,10 @@ class Recorder:
 
         def register(stream):
             rel = orig_register(stream)
-            self._instrument(stream)
+            try:
+                self._instrument(stream)
+            except Exception:
+                self.unobs.update(('queue', 'acks'))
             if not self.in_process:
                 self.emit(('REG', stream.id))
 
@@ -164,22 +244,36 @@ class Recorder:
                 self.acks.append(('ack', stream_id, size))
             return orig_ack(stream_id, size)
 
-        def reset_stream(stream_id, error_code=0):
-            self.emit(('CANCEL', stream_id))
-            return orig_reset(stream_id, error_code=error_code)
-
         proc.process, proc.close, proc.register = process, close, register
         proto.data_received, proto.pause_writing, proto.resume_writing = \
             data_received, pause_writing, resume_writing
         conn.ack = ack
-        h2c.reset_stream = reset_stream
+        if h2c is not None:
+            orig_reset = h2c.reset_stream
+
+            def reset_stream(stream_id, error_code=0):
+                self.emit(('CANCEL', stream_id))
+                return orig_reset(stream_id, error_code=error_code)
+            h2c.reset_stream = reset_stream          # (ACancel changes no component: nothing to mask without it)
         if self.side == 'S':
             handler = proto.handler
             orig_accept = handler.accept
 
             def accept(stream, headers, release_stream):
+                def all_tasks():
+                    try:
+                        return set(asyncio.all_tasks(asyncio.get_event_loop_policy().get_event_loop()))
+                    except Exception:
+                        return set()
+                before = all_tasks()
                 r = orig_accept(stream, headers, release_stream)
-                self.tasks[stream] = handler._tasks.get(stream)
+                new = [t for t in all_tasks() if t not in before]
+                if self.task_table is None:
+                    self.task_table = handler_task_table(handler, stream)
+                if self.task_table is not None:
+                    self.tasks[stream] = getattr(handler, self.task_table).get(stream)
+                elif len(new) == 1:
+                    self.tasks[stream] = new[0]
                 self.req[stream] = headers
                 return r
             handler.accept = accept
@@ -187,12 +281,16 @@ class Recorder:
     def _instrument(self, stream):
         sid = stream.id
         buf = stream.buffer
-        orig_cb = buf._ack_callback
+        cb_name, _, _ = buffer_parts(buf)
+        if cb_name is None:
+            self.unobs.update(('queue', 'acks'))      # reads cannot be seen: what is still queued is unknown
+        else:
+            orig_cb = getattr(buf, cb_name)
 
-        def cb(n):
-            self.emit(('READ', sid))
-            return orig_cb(n)
-        buf._ack_callback = cb
+            def cb(n):
+                self.emit(('READ', sid))
+                return orig_cb(n)
+            setattr(buf, cb_name, cb)
         if stream.wrapper is not None:          # client: the call's wrapper comes with the stream
             self.attached.add(sid)
             self._wrap_wrapper(sid, stream.wrapper)
@@ -216,7 +314,7 @@ class Recorder:
                 if stream.wrapper is not None and sid not in self.attached:
                     self.attached.add(sid)
                     self.tokens.append(('ATT', sid))
-                    if isinstance(stream.wrapper._error, asyncio.TimeoutError):
+                    if isinstance(wrapper_error(stream.wrapper)[1], asyncio.TimeoutError):
                         self.tokens.append(('DL', sid))
                     self._wrap_wrapper(sid, stream.wrapper)
         finally:
@@ -228,40 +326,74 @@ class Recorder:
 
     # ---- observations ----------------------------------------------------------------------------
     def snapshot(self, sid, stream):
-        q = []
-        for item in list(stream.buffer._unacked._queue):
-            q.append('d:%s:%d' % (hexw(item.data), item.ack_size) if item.ack_size else 'E')
+        """the component of one call in the words of ocaml/dC11.ml; '?' for a field that cannot be observed"""
+        _, queue, eof_name = buffer_parts(stream.buffer)
+        its = queue_items(queue) if queue is not None else None
+        if its is None:
+            self.unobs.add('queue')
+        if eof_name is None:
+            self.unobs.add('eof')
+        q = ['d:%s:%d' % (hexw(d), a) if a else 'E' for d, a in (its or [])]
         w = stream.wrapper
+        err_ok, err = wrapper_error(w) if w is not None else (True, None)
+        if not err_ok:
+            self.unobs.add('err')
         task = self.tasks.get(stream)
-        in_tasks = self.side == 'S' and stream in self.proto.handler._tasks
+        if self.side == 'S':
+            if self.task_table is None and self.req:
+                self.unobs.add('in_tasks')
+            if task is None and stream in self.req:
+                self.unobs.add('cancels')
+        in_tasks = (self.side == 'S' and self.task_table is not None and
+                    stream in getattr(self.proto.handler, self.task_table, {}))
         cancels = task.cancelling() if (self.side == 'S' and task is not None) else 0
         req = self.req.get(stream)
-        return '/'.join([
+
+        def flag(name):
+            ev = getattr(stream, name, None)
+            if ev is None:
+                self.unobs.add('flags')
+                return '?'
+            return '1' if ev.is_set() else '0'
+        fields = [
             str(sid),
             'N' if req is None else 'h' + ser_headers(req),
             'N' if stream.headers is None else 'h' + ser_headers(stream.headers),
             ','.join(q) or '_',
-            '1' if stream.buffer._eof else '0',
+            ('1' if getattr(stream.buffer, eof_name) else '0') if eof_name else '?',
             'N' if stream.trailers is None else 'h' + ser_headers(stream.trailers),
-            '1' if stream.window_updated.is_set() else '0',
-            '1' if stream.headers_received.is_set() else '0',
-            '1' if stream.trailers_received.is_set() else '0',
+            flag('window_updated'), flag('headers_received'), flag('trailers_received'),
             '1' if w is not None else '0',
-            err_word(w._error) if w is not None else 'N',
+            err_word(err) if w is not None else 'N',
             '1' if in_tasks else '0',
-            str(cancels)])
+            str(cancels)]
+        for name, idx in FIELD.items():
+            if name in self.unobs:
+                fields[idx] = '?'
+        return '/'.join(fields)
 
     def final(self):
         self.poll()
         reg = [self.snapshot(sid, st) for sid, st in self.proc.streams.items()]
+        # every snapshot taken earlier is re-masked with what turned out to be unobservable later
+        self.release_snaps = [(p, sid, mask_fields(sn, self.unobs)) for p, sid, sn in self.release_snaps]
+        reg = [mask_fields(sn, self.unobs) for sn in reg]
         return {
             'raised': self.raised,
-            'closed': 0 if hasattr(self.proc, 'processors') else 1,
+            'closed': self._closed(),
             'wr': 1 if self.conn.write_ready.is_set() else 0,
             'slot': 1 if self.conn.stream_close_waiter.is_set() else 0,
-            'acks': ['ack:%d:%d' % (s, n) for _, s, n in self.acks],
+            'acks': '?' if 'acks' in self.unobs else ['ack:%d:%d' % (s, n) for _, s, n in self.acks],
             'reg': reg,
         }
+
+    def _closed(self):
+        """has the connection been shut down (EventsProcessor.close): seen on the transport it was given"""
+        tr = getattr(self, 'transport', None)
+        if tr is not None:
+            return 1 if tr.is_closing() else 0
+        self.unobs.add('closed')
+        return '?'
 
     def words(self, upto=None):
         toks = self.tokens if upto is None else self.tokens[:upto]
@@ -278,12 +410,37 @@ class Recorder:
         return any(t[0] in ('GOAWAY', 'PERR', 'LOST', 'CLOSE') for t in self.tokens)
 
 
+FIELD = {'req': 1, 'queue': 3, 'eof': 4, 'err': 10, 'in_tasks': 11, 'cancels': 12}
+
+
+def mask_fields(call_word, names):
+    if call_word == 'none':
+        return call_word
+    f = call_word.split('/')
+    for n in names:
+        if n in FIELD:
+            f[FIELD[n]] = '?'
+    if 'flags' in names:
+        f[6] = f[7] = f[8] = '?'
+    return '/'.join(f)
+
+
+def mask_like(model_word, impl_word):
+    """put '?' into the model's answer wherever the implementation side could not observe"""
+    if model_word == 'none' or impl_word == 'none':
+        return model_word
+    a, b = model_word.split('/'), impl_word.split('/')
+    return '/'.join('?' if y == '?' else x for x, y in zip(a, b))
+
+
 # ---- canonical forms of the model's answers -----------------------------------------------------------
 def drop_eof_marks(call_word):
     """queue without the EOF markers (their consumption by a reader is not visible from outside)"""
     if call_word == 'none':
         return call_word
     f = call_word.split('/')
+    if f[3] == '?':
+        return call_word
     q = [x for x in f[3].split(',') if x not in ('E', '_')]
     f[3] = ','.join(q) or '_'
     return '/'.join(f)
@@ -305,3 +462,24 @@ def parse_mux(line):
         'acks': [o for o in outs if o.startswith('ack:')],
         'reg': [] if d['reg'] == '_' else d['reg'].split(';'),
     }
+
+
+# ---- real client <-> real server, connected at the asyncio boundary ---------------------------------------
+def connect_link(loop, channel, server, cutter, state):
+    """Route the channel's connection attempts (loop.create_connection / create_unix_connection, which is what
+    Channel calls) to a fresh in-memory Link with a protocol of `server`; a Recorder is attached to both ends.
+    state['connects'] counts the attempts, state['recs'] = [client recorder, server recorder]."""
+    from harness import wire
+
+    async def create_connection(factory, *args, **kw):
+        state['connects'] = state.get('connects', 0) + 1
+        cp = factory()
+        sp = wire.protocol_factory_of(server)()
+        link = wire.Link(loop, cp, sp, cutter)
+        sp.connection_made(link.tb)
+        cp.connection_made(link.ta)
+        state['recs'] = [Recorder(cp, 'C'), Recorder(sp, 'S')]
+        state['link'] = link
+        return link.ta, cp
+    loop.create_connection = create_connection
+    loop.create_unix_connection = create_connection
